@@ -37,9 +37,20 @@ theorem sweepEntry_length (op : Op R) (i : Nat) (d d' : List R) (h : sweepEntry 
   unfold sweepEntry at h
   split at h
   · simp only at h
+    -- the left accumulation (or its skip)
+    have hl : ∀ d1, (if op.leftParent = i then Outcome.ok d
+        else accumulate d op.leftParent (d[i] * op.leftDerivative)) = .ok d1 →
+        d1.length = d.length := by
+      intro d1 h1
+      split at h1
+      · cases h1; rfl
+      · exact accumulate_length _ _ _ _ h1
     split at h
     · rename_i d1 h1
-      rw [accumulate_length _ _ _ _ h, accumulate_length _ _ _ _ h1]
+      have := hl d1 h1
+      split at h
+      · cases h; exact this
+      · rw [accumulate_length _ _ _ _ h, this]
     · cases h
   · cases h
 
